@@ -281,7 +281,7 @@ func c01Run(c *mon.Ctx, csAny any) {
 	if cs.EMove != nil {
 		c.Count("elem-history")
 
-		e = cs.EMove.From.Build()
+		e = cs.EMove.Start()
 		e.Copy().Multiply(mon.Scal(big.NewInt(5))) // the old value takes part in a multiplication (on a copy and in place)
 		_ = e.Encode()
 
